@@ -15,6 +15,7 @@ FIX = [  # (substring of commit subject, property, key at the time, what failed)
  ('EnableVerification returns', 'C09', 'enable-no-watcher-returned-other-config', 'EnableVerification without watchers returned (nil, zero serial, nil) on success'),
  ('manglers do not recurse into text-unmarshalable element', 'C13', 'valid-document-rejected:all-formats:[]time.Time', '[]time.Time field: all four decoders rejected a valid list of timestamps (translated to []struct{})'),
  ('OnImplements returns a nil of the type', 'C10', 'reverse-error-on-empty-value:incompatible-types', 'TextUnmarshalerMangler: an unset *time.Time / *T text-unmarshaler field reversed to a struct instead of a nil pointer (incompatible types error or panic in the next mangler)'),
+ ("file watcher dropped the watch on the config's own directory", 'C17', 'invalid-final-no-error:stale-after-layout-change', 'a regular config file (or a symlink to a sibling) replaced by rename-over with a symlink into ANOTHER directory made the watcher remove its watch on the config\'s own directory; the next rename-over of the config path went unnoticed and the view stayed stale'),
  ('the file watcher moves its directory watch before reading', 'C17', 'no-converge:update-lost-while-moving-dir-watch', 'k8s/symlink layouts: an update right after a symlink swap was lost (view stale, malformed content never reported); watcher deaf after a swap whose new target was briefly missing'),
  ('ReverseTranslate skips', 'C10', 'panic:unexported-field-in-slice-elem', 'non-empty slice/array of structs with an unexported field panicked (index out of range) in every decoder chain'),
  ('environment variable names', 'C11', 'env-name-single-letter-word', 'N.M looked up as NM: single-letter path components lost their word boundary'),
